@@ -649,6 +649,11 @@ class Exec:
                 return v.value
             if attr == "name":
                 return v.name
+        from . import lib
+
+        r = lib.value_attr(self, v, attr)
+        if r is not lib.NOATTR:
+            return r
         return LibMethod(v, attr)
 
     def e_Subscript(self, node, fr):
@@ -689,6 +694,10 @@ class Exec:
         return Closure(node, self, fr)
 
     def e_Call(self, node, fr):
+        if isinstance(node.func, ast.Name) and node.func.id == "super" and not node.args and "super" not in fr.env:
+            from . import lib
+
+            return lib.SuperV(fr.env.get("self"), fr.func.cls if fr.func else None, fr.func.mi if fr.func else None)
         fv = self.eval(node.func, fr)
         args = []
         for a in node.args:
